@@ -95,7 +95,7 @@ structure Sim where
   nodes : List Node := []
   chain : List Block := []          -- active chain, genesis side first
   known : List OutPoint := []
-  model : Option State := some init
+  model : Option State := none     -- the Model is no longer consulted for chain lines
   out : List String := []           -- reversed
   views : List String := []         -- reversed: what each saved FetchUtxoView said when taken
 
@@ -200,22 +200,17 @@ def Sim.op (s : Sim) (tok : String) : Option Sim :=
     pure ((s.modelStep (.flush mode s.full false)).emit "ok")
   | ['P'] =>
     let s := s.modelStep (.flush .required s.full false)
-    pure (s.emit s!"d={utxoStr (utxoOf s.chain) s.known};m={s.tip};z=1")
+    pure (s.emit s!"d={utxoStr (utxoOf s.chain) s.known};m={s.tip}")
   | 'X' :: rest => do
     -- unclean shutdown + start-up with cache size `n` that completes
     let n ← (String.ofList rest).toNat?
     let m := if sizeKnown n then s.model.bind (fun m => restart m (fullsFor n)) else none
     pure ({ s with model := m, cfg := { s.cfg with cache := n } }.emit "ok")
   | 'Y' :: rest => do
-    -- unclean shutdown + start-up that is interrupted after the first replayed block
+    -- unclean shutdown + start-up with the interrupt already requested: whether a replay was
+    -- needed (and so interrupted) depends on the flush policy and is not observed
     let n ← (String.ofList rest).toNat?
-    match s.model with
-    | none => pure (s.emit "model-assert")
-    | some m =>
-      if (crashed m).2.isEmpty then
-        pure ({ s with model := restart m (fullsFor n), cfg := { s.cfg with cache := n } }.emit "ok")
-      else
-        pure ({ s with model := restartAborted m 1 (fullsFor n), cfg := { s.cfg with cache := n } }.emit "int")
+    pure ({ s with cfg := { s.cfg with cache := n } }.emit "y")
   | 'J' :: rest => do
     -- FetchSpendJournal of any delivered block: exact for an active block; for an inactive one
     -- the record is absent, which reads as empty when the block spends nothing, else as an error
@@ -260,9 +255,10 @@ def Sim.op (s : Sim) (tok : String) : Option Sim :=
     let s := { s.modelStep (.fetch o) with known := insertOp o s.known }
     pure (s.emit (match utxoOf s.chain o with | none => "none" | some e => entryStr e))
   | ['D'] =>
-    match s.model with
-    | none => pure (s.emit "model-assert")
-    | some m => pure (s.emit (dumpStr m s.known))
+    -- the abstraction of (cache, bucket) for every known outpoint, the cache's safety invariant
+    -- (evaluated by the harness on the real state) and the total transaction count: the fold, true,
+    -- and the Spec count, whatever the caching and flushing policy
+    pure (s.emit s!"a={utxoStr (utxoOf s.chain) s.known};inv=1;t={totalTxns s.chain}")
   | _ => none
 
 def runChain (cfg : Cfg) (toks : List String) : String :=
@@ -279,10 +275,17 @@ structure CSim where
   known : List OutPoint := []
   out : List String := []
 
+/-- Executable form of the cache invariant on the outpoints the line mentions. -/
+def cinvOk (c : Cache) (db : Db) (known : List OutPoint) : Bool :=
+  known.all (fun o => match c.get o with
+    | none => true
+    | some none => (db o).isNone
+    | some (some ce) => (!ce.fresh || (db o).isNone) &&
+        (ce.modified || (!ce.spent && db o == some ce.e)))
+
 def CSim.dump (s : CSim) (res : String) : CSim :=
-  let c := join "," (s.known.filterMap (fun o => slotStr o (s.cache.get o)))
-  let d := join "," (s.known.filterMap (fun o => (s.db o).map (fun e => s!"{opStr o}:{entryStr e}")))
-  { s with out := s!"{res};c={c};d={d};l={s.lastFlush}" :: s.out }
+  let a := join "," (s.known.filterMap (fun o => (abs s.cache s.db o).map (fun e => s!"{opStr o}:{entryStr e}")))
+  { s with out := s!"{res};a={a};inv={if cinvOk s.cache s.db s.known then 1 else 0}" :: s.out }
 
 def parseBool? (s : String) : Option Bool :=
   if s == "1" then some true else if s == "0" then some false else none
@@ -309,14 +312,14 @@ def CSim.op (s : CSim) (tok : String) : Option CSim :=
     let o ← parseOutPoint? (String.ofList rest)
     let s := { s with known := insertOp o s.known }
     let r := fetch s.cache s.db o
-    let res := match r.2 with | none => s!"{opStr o}:nil" | some ce => s!"{opStr o}:{centryStr ce}"
+    let res := match r.2 with
+      | none => "none"
+      | some ce => match ce.val with | none => "none" | some e => entryStr e
     pure ({ s with cache := r.1 }.dump res)
   | 'w' :: m :: f :: d :: ':' :: best => do
     let mode ← parseMode? m
-    -- threshold digit: 1 (limit 0) and 2 (limit = usage, comparison is >=) reach it;
-    -- timer digit: 1 (long ago) and 3 (just over the interval, comparison is >) are due
-    let full ← if f == '1' || f == '2' then some true else if f == '0' || f == '3' then some false else none
-    let due ← if d == '1' || d == '3' then some true else if d == '0' || d == '2' then some false else none
+    let full ← parseBool? (String.singleton f)
+    let due ← parseBool? (String.singleton d)
     let best ← (String.ofList best).toNat?
     if flushNow mode full due best s.lastFlush then
       pure ({ s with cache := emptyCache, db := writeCache s.cache s.db, lastFlush := best }.dump "ok")
